@@ -32,6 +32,8 @@ CONSTANTS Kinds,          \* kinds of objects a file may contain
           Damages,        \* subset of {"none","xrefbody","xrefdata","startxref"}
           EOF_IS_BROKEN,  \* FALSE: as coded, TRUE: as the property demands
           TRIM_TWICE,     \* TRUE: as coded (see ReadVal), FALSE: as the property demands
+          SHARED_SEEN,    \* FALSE: as coded (checkObjects makes a fresh makeSafeGetInt per
+                          \* object); TRUE: one for the whole scan, whose `seen` set fills up
           USED_HOISTED    \* FALSE: as coded; TRUE: a plausible refactoring of locateObjects
                           \* (`used = true` once before the switch) that loses sections
 
@@ -61,9 +63,15 @@ Body(kind) ==
     [] kind \in {"mstreamT", "mstreamE"} ->
          DictToks \o <<Ws("top"), Tok("streamkw", "top", 2), Tok("data", "stm", 2), Tok("mline", "stm", 2),
                        Tok("data", "stm", 2), Tok("endstream", "stm", 2)>>
+    \* "aistream": indirect /Length like "istream", and the body contains a line
+    \* starting with "endstream" (token amark), possibly followed by a line "endobj"
+    [] kind = "aistream" ->
+         DictToks \o <<Ws("top"), Tok("streamkw", "top", 2), Tok("data", "stm", 2), Tok("amark", "stm", 2),
+                       Tok("data", "stm", 2), Tok("endstream", "stm", 2)>>
     [] kind \in {"stream", "istream"} -> DictToks \o <<Ws("top"), Tok("streamkw", "top", 2), Tok("data", "stm", 2), Tok("endstream", "stm", 2)>>
 ObjToks(kind) == <<Tok("hdr", "top", 2), Ws("top")>> \o Body(kind) \o <<Ws("top"), Tok("endobj", "top", 2)>>
 
+Min2(a, b) == IF a < b THEN a ELSE b
 RECURSIVE SumLen(_, _)
 SumLen(toks, n) == IF n = 0 THEN 0 ELSE SumLen(toks, n - 1) + toks[n].len
 ObjLen(kind) == SumLen(ObjToks(kind), Len(ObjToks(kind)))
@@ -108,7 +116,10 @@ Markers(ks, t) == ObjMarkers(ks, 1) \o TailMarkers(ks, t)
 \* ------------------------------------------------------------ the property
 \* is stated in SeqScanRef (Ref... operators over byte offsets); here the
 \* ground truth of a model file:
-ObjRecs(ks) == [i \in 1..Len(ks) |-> [start |-> StartOf(ks, i), hdrEnd |-> HdrEndOf(ks, i), end |-> EndOf(ks, i)]]
+IndirectLen(k) == k \in {"istream", "aistream"}      \* the next object holds the /Length
+ObjRecs(ks) == [i \in 1..Len(ks) |-> [start |-> StartOf(ks, i), hdrEnd |-> HdrEndOf(ks, i), end |-> EndOf(ks, i),
+                                     amb |-> ks[i] = "aistream",
+                                     lenEnd |-> IF IndirectLen(ks[i]) /\ i < Len(ks) THEN EndOf(ks, i + 1) ELSE EndOf(ks, i)]]
 
 \* ---------------------------------------------------- the parser, as coded
 \* What ReadIndirectObject returns when the input ends while token k of an
@@ -139,15 +150,28 @@ ImplParses(kind, avail) ==
   LET k == StopTok(kind, avail)
   IN IF k = 0 THEN {"ok"}
      ELSE {ImplVerdict(x) : x \in ImplStops(ObjToks(kind)[k], TokStart(kind, k) < avail)}
+\* ReadStreamData: the declared /Length is used when it can be resolved (and
+\* "endstream" follows there); otherwise the end of the body is searched:
+\* the first EOL "endstream".  In an "aistream" that is the line inside the
+\* body: if "endobj" follows it there the object parses (with a shorter
+\* body), else it is malformed.
+AmarkIdx(kind) == CHOOSE k \in 1..Len(ObjToks(kind)) : ObjToks(kind)[k].cls = "amark"
+ImplParsesL(kind, avail, lenKnown) ==
+  IF kind = "aistream" /\ ~lenKnown
+  THEN IF TokEnd(kind, AmarkIdx(kind)) <= avail THEN {"ok", "broken"} ELSE ImplParses(kind, Min2(avail, TokStart(kind, AmarkIdx(kind))))
+  ELSE ImplParses(kind, avail)
+LenObjComplete(ks, c, i) == IndirectLen(ks[i]) /\ i < Len(ks) /\ EndOf(ks, i + 1) <= c
 
-\* FileInfo.Read of object i.  A stream whose /Length cannot be resolved (the
-\* object holding it lies beyond the cut) is delimited by searching for
-\* EOL "endstream" (ReadStreamData); trimTrailingEOL then removes one more EOL
-\* from the body although the regular expression has consumed the marker
-\* already, so a body that ends in an EOL comes back one EOL short.
+\* FileInfo.Read of object i (it resolves lengths with a makeSafeGetInt of its
+\* own).  A stream whose /Length cannot be resolved (the object holding it
+\* lies beyond the cut) is delimited by searching for EOL "endstream"
+\* (ReadStreamData); as coded before cc9fb20 trimTrailingEOL then removed one
+\* more EOL from the body although the regular expression had consumed the
+\* marker already, so a body that ends in an EOL came back one EOL short.
 ReadVal(ks, c, i) ==
-  IF ImplParses(ks[i], c - StartOf(ks, i)) # {"ok"} THEN "err"
-  ELSE IF ks[i] = "istream" /\ TRIM_TWICE /\ ~(i < Len(ks) /\ EndOf(ks, i + 1) <= c) THEN "other"
+  IF ks[i] = "aistream" /\ ~LenObjComplete(ks, c, i) THEN "other"
+  ELSE IF ImplParses(ks[i], c - StartOf(ks, i)) # {"ok"} THEN "err"
+  ELSE IF ks[i] = "istream" /\ TRIM_TWICE /\ ~LenObjComplete(ks, c, i) THEN "other"
   ELSE "v"
 
 \* ------------------------------------------------------- the scan, stepwise
@@ -163,33 +187,35 @@ VARIABLES kinds,    \* the file: sequence of object kinds
           used,     \* locateObjects: current section has content
           inTr,     \* locateObjects: inTrailer
           M,        \* Markers(kinds, tail), computed once when the fault is chosen
+          nres,     \* checkObjects: indirect lengths resolved so far (matters if SHARED_SEEN)
+          lk,       \* checkObjects: the /Length of cur could be resolved
           cur,      \* check: candidate being parsed (0: none)
           tk,       \* check: next token of cur
           st,       \* status of each object: "-", "ok", "broken"
           val,      \* what Read returns: "-", "v", "err"
           res       \* "-", "ok", "abort", "nopdf", "nocontent"
-vars == <<kinds, tail, cut, damage, phase, mpos, listed, nsect, cursec, used, inTr, M, cur, tk, st, val, res>>
+vars == <<kinds, tail, cut, damage, phase, mpos, listed, nsect, cursec, used, inTr, M, nres, lk, cur, tk, st, val, res>>
 
 N == Len(kinds)
 Init == /\ kinds = <<>> /\ tail = "?" /\ cut = -1 /\ damage = "none" /\ phase = "build"
-        /\ mpos = 0 /\ listed = {} /\ nsect = 0 /\ cursec = {} /\ used = FALSE /\ inTr = FALSE /\ M = <<>> /\ cur = 0 /\ tk = 0
+        /\ mpos = 0 /\ listed = {} /\ nsect = 0 /\ cursec = {} /\ used = FALSE /\ inTr = FALSE /\ M = <<>> /\ nres = 0 /\ lk = TRUE /\ cur = 0 /\ tk = 0
         /\ st = <<>> /\ val = <<>> /\ res = "-"
 
 \* -- building the file and choosing the fault (actions, so that workers share)
 AddObj(k) == /\ phase = "build" /\ tail = "?" /\ N < MaxObjs
-             /\ k = "istream" => N + 1 < MaxObjs               \* its length object follows
-             /\ (N >= 1 /\ kinds[N] = "istream") => k = "int"
+             /\ IndirectLen(k) => N + 1 < MaxObjs               \* its length object follows
+             /\ (N >= 1 /\ IndirectLen(kinds[N])) => k = "int"
              /\ kinds' = Append(kinds, k)
-             /\ UNCHANGED <<tail, cut, damage, phase, mpos, listed, nsect, cursec, used, inTr, M, cur, tk, st, val, res>>
-CloseFile(t) == /\ phase = "build" /\ tail = "?" /\ N >= 1 /\ kinds[N] # "istream"
+             /\ UNCHANGED <<tail, cut, damage, phase, mpos, listed, nsect, cursec, used, inTr, M, nres, lk, cur, tk, st, val, res>>
+CloseFile(t) == /\ phase = "build" /\ tail = "?" /\ N >= 1 /\ ~IndirectLen(kinds[N])
                 /\ tail' = t
                 /\ kinds' = IF t = "xrefstm" THEN Append(kinds, "stream") ELSE kinds
-                /\ UNCHANGED <<cut, damage, phase, mpos, listed, nsect, cursec, used, inTr, M, cur, tk, st, val, res>>
+                /\ UNCHANGED <<cut, damage, phase, mpos, listed, nsect, cursec, used, inTr, M, nres, lk, cur, tk, st, val, res>>
 Begin(c, d) == /\ phase = "build" /\ tail # "?"
                /\ cut' = c /\ damage' = d
                /\ phase' = "locate" /\ mpos' = 0 /\ M' = Markers(kinds, tail)
                /\ st' = [i \in 1..N |-> "-"] /\ val' = [i \in 1..N |-> "-"]
-               /\ UNCHANGED <<kinds, tail, listed, nsect, cursec, used, inTr, cur, tk, res>>
+               /\ UNCHANGED <<kinds, tail, listed, nsect, cursec, used, inTr, nres, lk, cur, tk, res>>
 Truncate == /\ phase = "build" /\ tail # "?"
             /\ \E c \in 0..FileLen(kinds, tail) : Begin(c, "none")
 Damage(d) == /\ phase = "build" /\ tail # "?"
@@ -203,7 +229,7 @@ LocHeader == /\ phase = "locate" /\ mpos = 0
              /\ IF HeaderLen <= cut
                 THEN mpos' = 1 /\ UNCHANGED <<phase, res>>
                 ELSE res' = "nopdf" /\ phase' = "done" /\ UNCHANGED mpos
-             /\ UNCHANGED <<kinds, tail, cut, damage, listed, nsect, cursec, used, inTr, M, cur, tk, st, val>>
+             /\ UNCHANGED <<kinds, tail, cut, damage, listed, nsect, cursec, used, inTr, M, nres, lk, cur, tk, st, val>>
 \* finish(): the section under construction is appended if it is used
 Keep(u) == /\ listed' = IF u THEN listed \cup cursec ELSE listed
            /\ nsect' = IF u THEN nsect + 1 ELSE nsect
@@ -227,7 +253,7 @@ LocMarker ==
                /\ Keep(used \/ USED_HOISTED)
                /\ cursec' = {} /\ used' = FALSE /\ inTr' = FALSE
   /\ mpos' = mpos + 1
-  /\ UNCHANGED <<kinds, tail, cut, damage, phase, M, cur, tk, st, val, res>>
+  /\ UNCHANGED <<kinds, tail, cut, damage, phase, M, nres, lk, cur, tk, st, val, res>>
 \* the next marker is not (completely) there: Find returns io.EOF; finish()
 LocEnd == /\ phase = "locate" /\ mpos >= 1
           /\ IF mpos > Len(M) THEN TRUE ELSE M[mpos].end > cut
@@ -236,22 +262,37 @@ LocEnd == /\ phase = "locate" /\ mpos >= 1
           /\ IF nsect + (IF used THEN 1 ELSE 0) = 0
              THEN res' = "nocontent" /\ phase' = "done" /\ UNCHANGED <<cur, tk>>
              ELSE phase' = "check" /\ cur' = 0 /\ tk' = 0 /\ UNCHANGED res
-          /\ UNCHANGED <<kinds, tail, cut, damage, mpos, M, st, val>>
+          /\ UNCHANGED <<kinds, tail, cut, damage, mpos, M, nres, lk, st, val>>
 
 \* -- checkObjects: parse every candidate in file order
 Pending == {i \in listed : st[i] = "-"}
+\* doRead(objInfo, getInt): with a makeSafeGetInt per object (as coded) every
+\* resolvable /Length is resolved; with one shared by the whole scan its set of
+\* references seen fills up (cap 8 in the code, 1 in this model) and every
+\* later indirect /Length is refused as a "circular reference"
+SeenCap == 1
 CheckBegin == /\ phase = "check" /\ cur = 0 /\ Pending # {}
-              /\ cur' = CHOOSE i \in Pending : \A j \in Pending : i <= j
+              /\ LET i == CHOOSE i \in Pending : \A j \in Pending : i <= j
+                     can == LenObjComplete(kinds, cut, i)
+                 IN /\ cur' = i
+                    /\ lk' = (can /\ (SHARED_SEEN => nres < SeenCap))
+                    /\ nres' = IF can THEN nres + 1 ELSE nres
               /\ tk' = 1
               /\ UNCHANGED <<kinds, tail, cut, damage, phase, mpos, listed, nsect, cursec, used, inTr, M, st, val, res>>
 Avail == cut - StartOf(kinds, cur)
-ParseTok == /\ phase = "check" /\ cur # 0 /\ tk <= Len(ObjToks(kinds[cur]))
+\* the search for EOL "endstream" stops at the line inside the body
+AtAmark == kinds[cur] = "aistream" /\ ~lk /\ tk = AmarkIdx("aistream")
+ParseAmbig == /\ phase = "check" /\ cur # 0 /\ AtAmark /\ TokEnd(kinds[cur], tk) <= Avail
+              /\ \E v \in {"ok", "broken"} : st' = [st EXCEPT ![cur] = v]   \* "endobj" follows there, or not
+              /\ cur' = 0 /\ tk' = 0
+              /\ UNCHANGED <<kinds, tail, cut, damage, phase, mpos, listed, nsect, cursec, used, inTr, M, nres, lk, val, res>>
+ParseTok == /\ phase = "check" /\ cur # 0 /\ tk <= Len(ObjToks(kinds[cur])) /\ ~AtAmark
             /\ TokEnd(kinds[cur], tk) <= Avail
             /\ tk' = tk + 1
-            /\ UNCHANGED <<kinds, tail, cut, damage, phase, mpos, listed, nsect, cursec, used, inTr, M, cur, st, val, res>>
+            /\ UNCHANGED <<kinds, tail, cut, damage, phase, mpos, listed, nsect, cursec, used, inTr, M, nres, lk, cur, st, val, res>>
 ParseDone == /\ phase = "check" /\ cur # 0 /\ tk = Len(ObjToks(kinds[cur])) + 1
              /\ st' = [st EXCEPT ![cur] = "ok"] /\ cur' = 0 /\ tk' = 0
-             /\ UNCHANGED <<kinds, tail, cut, damage, phase, mpos, listed, nsect, cursec, used, inTr, M, val, res>>
+             /\ UNCHANGED <<kinds, tail, cut, damage, phase, mpos, listed, nsect, cursec, used, inTr, M, nres, lk, val, res>>
 ParseStop == /\ phase = "check" /\ cur # 0 /\ tk <= Len(ObjToks(kinds[cur]))
              /\ TokEnd(kinds[cur], tk) > Avail
              /\ \E stop \in ImplStops(ObjToks(kinds[cur])[tk], TokStart(kinds[cur], tk) < Avail) :
@@ -259,26 +300,26 @@ ParseStop == /\ phase = "check" /\ cur # 0 /\ tk <= Len(ObjToks(kinds[cur]))
                 IN IF v = "broken"
                    THEN st' = [st EXCEPT ![cur] = "broken"] /\ cur' = 0 /\ tk' = 0 /\ UNCHANGED <<phase, res>>
                    ELSE res' = "abort" /\ phase' = "done" /\ UNCHANGED <<st, cur, tk>>
-             /\ UNCHANGED <<kinds, tail, cut, damage, mpos, listed, nsect, cursec, used, inTr, M, val>>
+             /\ UNCHANGED <<kinds, tail, cut, damage, mpos, listed, nsect, cursec, used, inTr, M, nres, lk, val>>
 CheckEnd == /\ phase = "check" /\ cur = 0 /\ Pending = {}
             /\ res' = "ok" /\ phase' = "read"
-            /\ UNCHANGED <<kinds, tail, cut, damage, mpos, listed, nsect, cursec, used, inTr, M, cur, tk, st, val>>
+            /\ UNCHANGED <<kinds, tail, cut, damage, mpos, listed, nsect, cursec, used, inTr, M, nres, lk, cur, tk, st, val>>
 
 \* -- FileInfo.Read of every listed object (same parser, same bytes)
 ReadOne == /\ phase = "read"
            /\ \E i \in listed : /\ val[i] = "-"
                                 /\ val' = [val EXCEPT ![i] = ReadVal(kinds, cut, i)]
-           /\ UNCHANGED <<kinds, tail, cut, damage, phase, mpos, listed, nsect, cursec, used, inTr, M, cur, tk, st, res>>
+           /\ UNCHANGED <<kinds, tail, cut, damage, phase, mpos, listed, nsect, cursec, used, inTr, M, nres, lk, cur, tk, st, res>>
 ReadEnd == /\ phase = "read" /\ \A i \in listed : val[i] # "-"
            /\ phase' = "done"
-           /\ UNCHANGED <<kinds, tail, cut, damage, mpos, listed, nsect, cursec, used, inTr, M, cur, tk, st, val, res>>
+           /\ UNCHANGED <<kinds, tail, cut, damage, mpos, listed, nsect, cursec, used, inTr, M, nres, lk, cur, tk, st, val, res>>
 
 Next == \/ \E k \in Kinds : AddObj(k)
         \/ \E t \in Tails : CloseFile(t)
         \/ Truncate
         \/ \E d \in Damages : Damage(d)
         \/ LocHeader \/ LocMarker \/ LocEnd
-        \/ CheckBegin \/ ParseTok \/ ParseDone \/ ParseStop \/ CheckEnd
+        \/ CheckBegin \/ ParseAmbig \/ ParseTok \/ ParseDone \/ ParseStop \/ CheckEnd
         \/ ReadOne \/ ReadEnd
 Spec == Init /\ [][Next]_vars
 
@@ -288,7 +329,8 @@ PropertyHolds == Done => RefHolds(ObjRecs(kinds), cut, res, listed, st, val)
 ScanReturns == Done => RefScanReturns(ObjRecs(kinds), cut, res)
 \* the step machine and the function form of the parser agree
 StepsAgree == (phase \in {"read", "done"} /\ res = "ok") =>
-                 \A i \in listed : st[i] \in ImplParses(kinds[i], cut - StartOf(kinds, i))
+                 \A i \in listed : st[i] \in ImplParsesL(kinds[i], cut - StartOf(kinds, i), LenObjComplete(kinds, cut, i))
+                                               \cup (IF SHARED_SEEN THEN ImplParsesL(kinds[i], cut - StartOf(kinds, i), FALSE) ELSE {})
 \* overwritten cross-reference data does not change what the scan returns
 DamageHarmless == (Done /\ damage # "none") =>
                     /\ res = "ok" /\ listed = 1..N /\ \A i \in 1..N : st[i] = "ok" /\ val[i] = "v"
